@@ -199,8 +199,10 @@ class GoGen:
             et = t.elem()
             if ln > 2048 and is_scalar_type(et) and ln <= (1 << 27):
                 return self.sparse_slice(v, t, ln)
-            if ln > (1 << 20) or cap > (1 << 24):
+            if ln > (1 << 20):
                 raise NoReplay("model slice too large (len %d cap %d)" % (ln, cap))
+            if cap > (1 << 20):
+                cap = ln   # an unconstrained capacity in the model: the replay uses the tightest legal one
             elems = [self.value(self.v.slice_get(self.state, v, idx(i)), et, depth + 1) for i in range(ln)]
             self.n += 1
             nm = "sl%d" % self.n
@@ -293,7 +295,14 @@ class GoGen:
 
     def struct_lit(self, t, getter, depth):
         parts = []
+        tname = t.name() or ""
+        foreign = "." in tname and tname.rsplit(".", 1)[0] != self.pkg
+        if foreign and (tname.startswith("sync.") or tname.startswith("sync/atomic.") or "internal/" in tname.split(MOD)[-1] and not tname.startswith(MOD)):
+            # synchronisation primitives and std-internal types: only their zero value is constructible
+            return "%s{}" % self.gotype(t)
         for name, ft, emb in t.fields():
+            if foreign and name[:1].islower():
+                continue   # unexported field of another package's struct: left at its zero value
             try:
                 fv = getter(name, ft)
                 if fv is None:
@@ -481,6 +490,18 @@ def build_test(ver, ob, model, func, job):
     body += g.decls
     body += lines
     body += snaps
+    use_fresh = bool(clause_go and "zzFresh(" in clause_go)
+    if use_fresh:
+        # fresh(x) is decidable at run time for the replay: x must not share storage with any input the test built
+        clause_go = clause_go.replace("zzFresh(", "zzReplayFresh(")
+        for dl in g.decls:
+            m_ = re.match(r"^(sl\d+|p\d+) :=", dl)
+            if m_:
+                body.append("zzReplayRegister(%s)" % (m_.group(1) if m_.group(1).startswith("sl") else "&" + m_.group(1)))
+        for pn, pt in params:
+            if pt.under().k in ("slice", "ptr", "iface"):
+                body.append("zzReplayRegister(%s)" % pn)
+        g.imports.add("reflect")
     rec = 'defer func() { if r := recover(); r != nil { fmt.Printf("GOVC-REPLAY panic: %v\\n", r); zzT.Fail() } }()'
     if nres:
         rtypes = [g.gotype(ver.prog.types[r["t"]]) for r in sig.get("results") or []]
@@ -518,7 +539,57 @@ def build_test(ver, ob, model, func, job):
         return src
     src = "package %s\n\nimport (\n%s\n)\n\nfunc TestZZGovcReplay(zzT *testing.T) {\n\t%s\n}\n" % (
         func.pkg.name, imps, "\n\t".join(body))
+    if use_fresh:
+        src += REPLAY_FRESH_HELPERS
     return src
+
+
+REPLAY_FRESH_HELPERS = """
+var zzReplayRegs []any
+
+func zzReplayRegister(x any) { zzReplayRegs = append(zzReplayRegs, x) }
+
+func zzReplaySpan(x any) (uintptr, uintptr, bool) {
+	if x == nil {
+		return 0, 0, false
+	}
+	v := reflect.ValueOf(x)
+	switch v.Kind() {
+	case reflect.Slice:
+		if v.IsNil() || v.Cap() == 0 {
+			return 0, 0, false
+		}
+		p := v.Pointer()
+		return p, p + uintptr(v.Cap())*v.Type().Elem().Size(), true
+	case reflect.Pointer:
+		if v.IsNil() {
+			return 0, 0, false
+		}
+		p := v.Pointer()
+		sz := v.Type().Elem().Size()
+		if sz == 0 {
+			sz = 1
+		}
+		return p, p + sz, true
+	}
+	return 0, 0, false
+}
+
+// zzReplayFresh: x shares no storage with any value the replay constructed as an input.
+func zzReplayFresh(x any) bool {
+	lo, hi, ok := zzReplaySpan(x)
+	if !ok {
+		return true
+	}
+	for _, r := range zzReplayRegs {
+		l2, h2, ok2 := zzReplaySpan(r)
+		if ok2 && lo < h2 && l2 < hi {
+			return false
+		}
+	}
+	return true
+}
+"""
 
 
 def run_test(src, pkgpath, repo, timeout=120):
@@ -597,7 +668,8 @@ def handle_failure(pid, job, repo, tier):
         except (NoReplay, Unsupported) as ex:
             rec["verdict"] = "model found but not replayable: %s" % ex
         except Exception as ex:
-            rec["verdict"] = "replay machinery error: %s" % ex
+            import traceback
+            rec["verdict"] = "replay machinery error: %s | %s" % (ex, traceback.format_exc()[-900:].replace("\n", " / "))
     os.makedirs(os.path.dirname(path), exist_ok=True)
     with open(path, "w") as f:
         json.dump(rec, f, indent=1, default=str)
